@@ -1013,8 +1013,9 @@ impl<Octs: Octets> PeerUpNotification<Octs> {
         BgpOpen::parse(&mut parser)?; //TODO turn into check
         BgpOpen::parse(&mut parser)?; //TODO turn into check
 
-        // optional Information
-        if parser.remaining() > 0 { 
+        // optional Information: information_tlvs() iterates over everything
+        // up to the end of the message
+        while parser.remaining() > 0 { 
             // Information TLVs of type 0 (String)
             let info_type = parser.parse_u16_be()?;
             if info_type != 0 {
